@@ -186,6 +186,16 @@ pub fn check(rep: &Report) {
             rep.fail(&format!("landmark/{v}/{}", if s { 1904 } else { 1900 }), &format!("serial {v} is1904={s} -> {got:?}, expected {y}-{m}-{d}"), || Replay { json: json!({"serial": v, "is_1904": s}), files: vec![] });
         }
     }
+    // the last supported day carries times of day like any other day
+    for (v, s1904, exp) in [(2958465.5f64, false, (9999i32, 12u32, 31u32, 12u32, 0u32, 0u32)), (2958465.999988426, false, (9999, 12, 31, 23, 59, 59)), (2957003.75, true, (9999, 12, 31, 18, 0, 0)), (2958464.25, false, (9999, 12, 30, 6, 0, 0))] {
+        rep.eval(1);
+        let got = guarded(|| ExcelDateTime::new(v, ExcelDateTimeType::DateTime, s1904).as_datetime()).ok().flatten();
+        let ok = got.map(|g| (g.year(), g.month(), g.day(), g.hour(), g.minute(), g.second()) == exp).unwrap_or(false);
+        rep.case(hash_of(&(v.to_bits(), s1904, "top")), true, hash_of(&format!("{got:?}")));
+        if !ok { rep.fail(&format!("landmark/top-of-span/{}", if s1904 { 1904 } else { 1900 }), &format!("serial {v} is1904={s1904} -> {got:?}, expected {exp:?}"), || Replay { json: json!({"serial": v, "is_1904": s1904}), files: vec![] }); }
+        let plain = guarded(|| Data::Float(v).as_datetime()).ok().flatten();
+        if !s1904 && plain != got { rep.fail("landmark/top-of-span/plain-float", &format!("Data::Float({v}).as_datetime() = {plain:?}, ExcelDateTime gives {got:?}"), || Replay { json: json!({"serial": v, "is_1904": false}), files: vec![] }); }
+    }
     // special values: must not panic; beyond the calendar => None; never a made-up date
     let specials: Vec<(&str, f64)> = vec![
         ("nan", f64::NAN), ("+inf", f64::INFINITY), ("-inf", f64::NEG_INFINITY), ("1e20", 1e20), ("-1e20", -1e20),
